@@ -23,23 +23,27 @@ func TestReplay(t *testing.T) {
 	if e == nil {
 		t.Skip("no replay file", err)
 	}
-	replayEnv(t, e)
+	// several executions: some stored cases (bursts racing the cut) fail only
+	// in part of the schedules
+	replayEnv(t, e, 10)
 }
 
-func replayEnv(t *testing.T, e *hx.Envelope) {
+func replayEnv(t *testing.T, e *hx.Envelope, times int) {
 	var c Case
 	if err := json.Unmarshal(e.Case, &c); err != nil {
 		t.Fatalf("bad case: %v", err)
 	}
-	if err := execute(e.Test, &c); err != nil {
-		hx.Violation(e.Test, &c, err.Error())
-		t.Fatalf("%v", err)
+	for i := 0; i < times; i++ {
+		if err := execute(e.Test, &c); err != nil {
+			hx.Violation(e.Test, &c, err.Error())
+			t.Fatalf("%v", err)
+		}
 	}
 }
 
 func TestRegress(t *testing.T) {
 	for _, e := range hx.Regressions() {
-		replayEnv(t, e)
+		replayEnv(t, e, 1)
 		hx.Label("regress")
 	}
 }
